@@ -72,10 +72,12 @@ pub struct Report {
 
 impl Report {
     pub fn case(&mut self, line: String, out: String) {
+        crate::progress::completed(&line);
         self.cases.push(line);
         self.impl_out.push(out);
     }
     pub fn hit(&mut self, k: &str) {
+        crate::progress::tick();
         *self.dist.entry(k.to_string()).or_insert(0) += 1;
     }
     pub fn fail(&mut self, key: &str, what: &str, case: &str) {
